@@ -22,6 +22,28 @@ class ExplorationLimit(Exception):
     pass
 
 
+class PathList(list):
+    """all paths of one exploration.  ITERATING yields the decided paths only ('ok', 'raise'):
+    an 'unsupported'/'unknown' path is never handed to code that would judge it.  The
+    undecided ones are in `.undecided`; whoever reports them sets `.reported` (the group
+    driver reports every exploration whose undecided paths nobody reported)."""
+
+    def __init__(self, paths):
+        super().__init__(paths)
+        self.undecided = [p for p in paths if p.kind in ("unsupported", "unknown")]
+        self.reported = False
+        REGISTRY.append(self)
+
+    def __iter__(self):
+        return (p for p in list.__iter__(self) if p.kind not in ("unsupported", "unknown"))
+
+    def everything(self):
+        return list(list.__iter__(self))
+
+
+REGISTRY = []  # PathLists created since the group started (reset by the group driver)
+
+
 def explore(run_fn, max_paths=4000, max_restarts=12):
     """run_fn(ctx) is executed once per path.  Returns the list of Paths (feasible ones).
     Unsupported / SolverUnknown paths are returned with kind 'unsupported'/'unknown' --
@@ -29,7 +51,7 @@ def explore(run_fn, max_paths=4000, max_restarts=12):
     hints = {}
     for _attempt in range(max_restarts + 1):
         try:
-            return _explore_once(run_fn, hints, max_paths)
+            return PathList(_explore_once(run_fn, hints, max_paths))
         except Restart as r:
             if hints.get(r.key) == r.mode:
                 raise Unsupported(f"loop {r.key}: summarisation mode {r.mode} did not converge")
